@@ -43,6 +43,7 @@ type RunResult struct {
 	Fired   []world.Op
 	Final   []world.FileState
 	Steps   uint64
+	Spin    string // function whose loop did not terminate (no-progress only)
 	W       *world.World
 }
 
@@ -78,6 +79,7 @@ func RunCLIHook(p *Program, spec world.Spec, hook func(w *world.World, op *world
 			case simrt.NoProgress:
 				res.Outcome = OutNoProgress
 				res.Stack = string(debug.Stack())
+				res.Spin = SpinningFunc(res.Stack)
 			default:
 				res.Outcome = OutCrash
 				res.Panic = fmt.Sprint(v)
@@ -108,6 +110,7 @@ type APIResult struct {
 	Panic   string
 	Stack   string
 	NoProg  bool
+	Spin    string
 	Steps   uint64
 }
 
@@ -133,6 +136,7 @@ func ParseAPI(p *Program, name string, src []byte) (ap Applier, res APIResult) {
 		case simrt.NoProgress:
 			res.NoProg = true
 			res.Stack = string(debug.Stack())
+			res.Spin = SpinningFunc(res.Stack)
 		default:
 			res.Panic = fmt.Sprint(v)
 			res.Stack = string(debug.Stack())
@@ -158,6 +162,7 @@ func ApplyAPI(a Applier, filename string, src []byte) (res APIResult) {
 		case simrt.NoProgress:
 			res.NoProg = true
 			res.Stack = string(debug.Stack())
+			res.Spin = SpinningFunc(res.Stack)
 		default:
 			res.Panic = fmt.Sprint(v)
 			res.Stack = string(debug.Stack())
@@ -193,6 +198,20 @@ func NormalizePanic(s string) string {
 	return s
 }
 
+// SpinningFunc names the gopatch function whose loop did not terminate in the
+// most recent no-progress run (stable across where exactly the budget ran out).
+func SpinningFunc(stack string) string {
+	fn := simrt.SpinFunc("github.com/uber-go/gopatch")
+	if fn == "" {
+		return InnermostRepoFunc(stack)
+	}
+	fn = strings.TrimPrefix(fn, "github.com/uber-go/gopatch")
+	fn = strings.TrimLeft(fn, "/.")
+	return reClosure.ReplaceAllString(fn, "")
+}
+
+var reClosure = regexp.MustCompile(`\.func[0-9].*$`)
+
 // InnermostRepoFunc extracts the innermost gopatch function of a stack trace.
 func InnermostRepoFunc(stack string) string {
 	for _, line := range strings.Split(stack, "\n") {
@@ -210,10 +229,7 @@ func InnermostRepoFunc(stack string) string {
 			continue
 		}
 		// closures: keep the enclosing function only
-		if i := strings.Index(fn, ".func"); i > 0 {
-			fn = fn[:i]
-		}
-		return fn
+		return reClosure.ReplaceAllString(fn, "")
 	}
 	return "?"
 }
